@@ -54,6 +54,28 @@ type layoutCtx struct {
 	// exprAlias: a parameter (or the receiver) of a folded encoder helper stands for the caller's expression
 	exprAlias map[types.Object]ast.Expr
 	depth     int
+	// elemIndex: the index variable of a `for i := 0; i < len(recv.F); i++` loop over the list lc.each
+	elemIndex types.Object
+}
+
+// resolve replaces a local that was defined once from a pure expression by that expression.
+func (lc *layoutCtx) resolve(e ast.Expr) ast.Expr {
+	for i := 0; i < 4; i++ {
+		id, ok := unparen(e).(*ast.Ident)
+		if !ok || lc.exprAlias == nil {
+			return e
+		}
+		o := lc.info.Uses[id]
+		if o == nil {
+			o = lc.info.Defs[id]
+		}
+		x, ok := lc.exprAlias[o]
+		if !ok {
+			return e
+		}
+		e = x
+	}
+	return e
 }
 
 // valueFail records a finding about the value a field receives, not about where the bytes are read: the
@@ -244,6 +266,12 @@ func (lc *layoutCtx) subject(e ast.Expr) (string, bool) {
 	if lc.elem != nil && lc.obj(e) == lc.elem {
 		return "@", true
 	}
+	// recv.F[i] inside the index loop over recv.F
+	if ix, ok := e.(*ast.IndexExpr); ok && lc.elemIndex != nil && lc.obj(ix.Index) == lc.elemIndex {
+		if f, ok := lc.fieldOfRecv(unparen(ix.X)); ok && f == lc.each {
+			return "@", true
+		}
+	}
 	// T(arg) conversions of the element (AcctArg(t))
 	if x, _, ok := lc.conv(e); ok {
 		return lc.subject(x)
@@ -258,6 +286,7 @@ func (lc *layoutCtx) encItem(e ast.Expr) (string, bool) {
 	if !ok || !is8bit(t) {
 		return "", false
 	}
+	x = lc.resolve(x)
 	if lx, ok := lc.lenOf(x); ok {
 		if s, ok := lc.subject(lx); ok {
 			if s == "@" {
@@ -457,6 +486,24 @@ func (lc *layoutCtx) encodeStmts(stmts []ast.Stmt, out *[]string, positional map
 				lc.fail(s, "a loop over %s must append exactly one item per element, found %v", f, inner)
 			}
 			*out = append(*out, inner...)
+		case *ast.ForStmt:
+			// for i := 0; i < len(recv.F); i++ { ... recv.F[i] ... }: the same as ranging over recv.F
+			f, iv, ok := lc.indexLoopOver(s)
+			if !ok {
+				if lc.mentions(s.Body, lc.buf) {
+					lc.fail(s, "the output buffer is written in a loop that does not run over an argument list field")
+				}
+				continue
+			}
+			saveE, saveF, saveI := lc.elem, lc.each, lc.elemIndex
+			lc.elem, lc.each, lc.elemIndex = nil, f, iv
+			var inner []string
+			lc.encodeStmts(s.Body.List, &inner, nil)
+			lc.elem, lc.each, lc.elemIndex = saveE, saveF, saveI
+			if len(inner) != 1 {
+				lc.fail(s, "a loop over %s must append exactly one item per element, found %v", f, inner)
+			}
+			*out = append(*out, inner...)
 		case *ast.ExprStmt:
 			// binary.BigEndian.PutUint32(buf[k:], E)
 			c, ok := s.X.(*ast.CallExpr)
@@ -514,6 +561,85 @@ func (lc *layoutCtx) encodeStmts(stmts []ast.Stmt, out *[]string, positional map
 	}
 }
 
+// assignedOnce: the local o is written only where it is defined (anywhere in the package's syntax).
+func (lc *layoutCtx) assignedOnce(o types.Object) bool {
+	n := 0
+	for _, f := range lc.pkg.Syntax {
+		if o.Pos() < f.Pos() || o.Pos() > f.End() {
+			continue
+		}
+		ast.Inspect(f, func(x ast.Node) bool {
+			switch a := x.(type) {
+			case *ast.AssignStmt:
+				for _, l := range a.Lhs {
+					if id, ok := unparen(l).(*ast.Ident); ok && (lc.info.Uses[id] == o || lc.info.Defs[id] == o) {
+						n++
+					}
+				}
+			case *ast.IncDecStmt:
+				if id, ok := unparen(a.X).(*ast.Ident); ok && lc.info.Uses[id] == o {
+					n += 2
+				}
+			case *ast.UnaryExpr:
+				if a.Op == token.AND {
+					if id, ok := unparen(a.X).(*ast.Ident); ok && lc.info.Uses[id] == o {
+						n += 2
+					}
+				}
+			}
+			return true
+		})
+	}
+	return n == 1
+}
+
+// indexLoopOver: s is `for i := 0; i < len(recv.F); i++` (the bound possibly kept in a local) over an argument
+// list field, and the body does not assign i. Returns the field and the index variable.
+func (lc *layoutCtx) indexLoopOver(s *ast.ForStmt) (string, types.Object, bool) {
+	init, ok := s.Init.(*ast.AssignStmt)
+	if !ok || init.Tok != token.DEFINE || len(init.Lhs) != 1 || len(init.Rhs) != 1 {
+		return "", nil, false
+	}
+	if z, ok := constIntExpr(lc.info, init.Rhs[0]); !ok || z != 0 {
+		return "", nil, false
+	}
+	iv := lc.obj(init.Lhs[0])
+	cond, ok := s.Cond.(*ast.BinaryExpr)
+	if !ok || cond.Op != token.LSS || iv == nil || lc.obj(cond.X) != iv {
+		return "", nil, false
+	}
+	post, ok := s.Post.(*ast.IncDecStmt)
+	if !ok || post.Tok != token.INC || lc.obj(post.X) != iv {
+		return "", nil, false
+	}
+	lx, ok := lc.lenOf(lc.resolve(cond.Y))
+	if !ok {
+		return "", nil, false
+	}
+	f, ok := lc.fieldOfRecv(unparen(lx))
+	if !ok || !lc.isElemList(lx) {
+		return "", nil, false
+	}
+	// the index is not assigned in the body
+	assigned := false
+	ast.Inspect(s.Body, func(n ast.Node) bool {
+		switch x := n.(type) {
+		case *ast.AssignStmt:
+			for _, l := range x.Lhs {
+				if lc.obj(l) == iv {
+					assigned = true
+				}
+			}
+		case *ast.IncDecStmt:
+			if lc.obj(x.X) == iv {
+				assigned = true
+			}
+		}
+		return !assigned
+	})
+	return f, iv, !assigned
+}
+
 func (lc *layoutCtx) mentions(n ast.Node, o types.Object) bool {
 	if n == nil || o == nil {
 		return false
@@ -561,6 +687,18 @@ func (lc *layoutCtx) encodeAssign(s *ast.AssignStmt, out *[]string, positional m
 						}
 					}
 				}
+			}
+		}
+	}
+	// n := len(recv.F) (or another expression that reads nothing but the receiver): a name for that expression
+	if s.Tok == token.DEFINE && len(s.Lhs) == 1 && len(s.Rhs) == 1 {
+		if _, isCall := lc.lenOf(s.Rhs[0]); isCall && !lc.mentionsExpr(s.Rhs[0], lc.buf) {
+			if o := lc.obj(s.Lhs[0]); o != nil && lc.assignedOnce(o) {
+				if lc.exprAlias == nil {
+					lc.exprAlias = map[types.Object]ast.Expr{}
+				}
+				lc.exprAlias[o] = s.Rhs[0]
+				return
 			}
 		}
 	}
